@@ -173,6 +173,28 @@ def run_cell(arg):
             if np.any(bad) or not np.all(np.isfinite(lqn[ok])):
                 k = int(np.argmax(np.abs(lqn - lpn) * ok))
                 out["viol"].append((f"SampleEvalAgree|{tag}", f"log_q returned with a draw ({lqn[k]!r}) != log_prob at that draw ({lpn[k]!r}); {int(bad.sum())} of {int(ok.sum())} draws"))
+            # the same with the output-namespace option of the flow's own methods (xp=numpy)
+            import array_api_compat.numpy as np_ns
+            x2, lq2 = fl.sample_and_log_prob(64, xp=np_ns)
+            x2n = np.asarray(smcdrv.to_np(x2), dtype=np.float64)
+            lq2n = np.asarray(smcdrv.to_np(lq2), dtype=np.float64)
+            lp2n = np.asarray(smcdrv.to_np(fl.log_prob(x2)), dtype=np.float64)
+            if c["bounded"] != "off" and np.isfinite(b2[0]):
+                u2 = (x2n[:, fin] - lo[fin]) / (hi[fin] - lo[fin])
+                m2 = np.minimum(u2, 1 - u2).min(-1)
+            elif c["bounded"] != "off":
+                u2 = (x2n[:, :1] - lo[:1]) / (hi[:1] - lo[:1])
+                m2 = np.minimum(u2, 1 - u2).min(-1)
+            else:
+                m2 = np.full(len(x2n), 0.5)
+            ok2 = m2 > (1e-3 if dt == "float32" else 1e-5)
+            tol2 = 256 * eps * (np.maximum(1.0, np.abs(lp2n)) + 1.0 / np.maximum(m2, 1e-12)) * cs
+            bad2 = ok2 & np.isfinite(lp2n) & ~(np.abs(lq2n - lp2n) <= tol2)
+            if type(x2).__module__.split(".")[0] != "numpy":
+                out["viol"].append((f"SampleEvalAgree|xp=numpy|namespace|{tag}", f"sample_and_log_prob(n, xp=numpy) returned {type(x2).__module__} arrays"))
+            elif np.any(bad2):
+                k = int(np.argmax(np.abs(lq2n - lp2n) * ok2))
+                out["viol"].append((f"SampleEvalAgree|xp=numpy|{tag}", f"with xp=numpy the log_q returned with a draw ({lq2n[k]!r}) != log_prob at that draw ({lp2n[k]!r}); {int(bad2.sum())} of {int(ok2.sum())} draws"))
         except Exception as ex:
             out["viol"].append((f"NeverRaises|flow|{tag}|{type(ex).__name__}", f"{type(ex).__name__}: {str(ex)[:160]}"))
         # JacobianIncluded with a fake transform: same weights, constant log-Jacobian c = 5
